@@ -104,6 +104,25 @@ func implSparseOps(line string) string {
 			case 'O':
 				h.Close()
 				opts := desync.SparseFileOptions{StateSaveFile: state}
+				if strings.HasSuffix(op, "m") { // a start that fails: the state-init file it is given does not exist
+					switch op[1] {
+					case '2':
+						os.Remove(name)
+					case '3':
+						if st, err := os.Stat(name); err == nil {
+							os.Truncate(name, st.Size()/2)
+						}
+					}
+					bad := opts
+					bad.StateInitFile = filepath.Join(c10dir, "no-such-state-file")
+					if _, err := desync.NewSparseFile(name, idx, store, bad); err == nil {
+						out = append(out, "unexpected-open")
+					} else {
+						out = append(out, "open-failed")
+					}
+					// the process would end here; the next op must be another start
+					continue
+				}
 				if strings.HasSuffix(op, "i") { // pre-load from the saved state, state-init and state-save being the same file
 					opts.StateInitFile = state
 					opts.StateInitConcurrency = 2
@@ -240,6 +259,12 @@ func runC10(cfg Config) {
 				default:
 					ops = append(ops, fmt.Sprintf("O%d", rng.Intn(4)))
 				}
+			}
+			if it%15 == 9 {
+				// directed: populate and save; the cache file is lost; a start that fails after it has
+				// re-created the cache file (missing state-init file); then a normal start
+				ops = []string{fmt.Sprintf("R0:%d", L), "S", fmt.Sprintf("O%dm", []int{2, 3, 0}[rng.Intn(3)]), "O0", fmt.Sprintf("R0:%d", L),
+					fmt.Sprintf("R%d:%d", rng.Intn(L+1), rng.Intn(int(max)*2+1))}
 			}
 			if it%15 == 4 {
 				// directed: populate and save; the cache file is lost; a restart re-creates it and starts to
